@@ -19,8 +19,8 @@ def secs1(ctx):
     lines, rejs, res = s1common.judge(ctx, allobs, ("e4gen",))
     groups = {}
     for d, why in rejs:
-        if why == "HarnessFault":
-            continue
+        if why == "HarnessFault" or not why.startswith("Gen"):
+            continue          # Rec* clauses of the same recording belong to C11
         g = groups.setdefault("c09:secs1:%s" % why, dict(n=0, first=d))
         g["n"] += 1
     for sig, g in sorted(groups.items()):
